@@ -489,8 +489,20 @@ Definition check_mask (v o : val) : bool :=
 Definition is_x (v : val) : bool :=
   Z.eqb (C08_Pipeline.kind v) (-5) || Z.eqb (C08_Pipeline.kind v) (-6) || Z.eqb (C08_Pipeline.kind v) (-7).
 
+(** [seed = None] (the default of [TrainLoader::from_files]) travels as [()] in the seed slot of the loader lines; the code
+    uses 0 ([self.seed.unwrap_or_default() + epoch], mod.rs:971) and so do the models ([v_hl ()] = 0).  One thing differs:
+    [from_files] refuses [shuffle] without a seed (mod.rs:934) *)
+Definition no_seed_shuffle (v : val) : bool :=
+  match v_nth 3 v with
+  | L [] => if Z.eqb (C08_Pipeline.kind v) (-2) then v_bool (v_nth 13 v)
+            else if Z.eqb (C08_Pipeline.kind v) (-3) || Z.eqb (C08_Pipeline.kind v) (-6) then v_bool (v_nth 15 v)
+            else false
+  | _ => false
+  end.
+
 Definition run_C08n (base_run : val -> val) (v : val) : val :=
-  if Z.eqb (C08_Pipeline.kind v) (-5) then run_item_x v
+  if no_seed_shuffle v then L [I 0%Z]
+  else if Z.eqb (C08_Pipeline.kind v) (-5) then run_item_x v
   else if Z.eqb (C08_Pipeline.kind v) (-6) then run_bloader_x v
   else if Z.eqb (C08_Pipeline.kind v) (-7) then run_mask v
   else base_run v.
